@@ -58,6 +58,24 @@ Theorem C19_cat : forall t b s dl cm files,
 Proof. exact cat_lists_history. Qed.
 Print Assumptions C19_cat.
 
+(* --delimiters: an argument without a backslash, other than the word "spaces", is the set the library gets (so the
+   theorems above, stated for the set the library gets, speak about the command line); with escapes the first \t, \f,
+   \n, \r, \v are replaced and everything before and behind them is kept *)
+Theorem C19_delimiters_plain : forall d, mem 92 d = false -> str_eqb d (bs "spaces") = false -> cli_delims d = d.
+Proof. exact cli_delims_plain. Qed.
+Print Assumptions C19_delimiters_plain.
+
+Theorem C19_escape_replaced : forall orig rep pre post,
+  orig <> [] -> (forall a b, pre = a ++ b -> b <> [] -> is_prefix orig (b ++ orig ++ post) = false) ->
+  replace_first orig rep (pre ++ orig ++ post) = pre ++ rep ++ post.
+Proof. exact replace_first_at. Qed.
+Print Assumptions C19_escape_replaced.
+
+Example C19_delimiters_demo :
+  cli_delims (bs "=\t\f") = [61; 9; 12] /\ cli_delims (bs "\t=\v") = [9; 61; 11] /\ cli_delims (bs "=\f\t:") = [61; 12; 9; 58] /\
+  cli_delims (bs "\t\t") = [9; 92; 116] /\ cli_delims (bs "spaces") = [32; 9; 12; 10; 13; 11] /\ cli_delims (bs ":=") = bs ":=".
+Proof. vm_compute. repeat split; reflexivity. Qed.
+
 Example C19_demo :
   let t := [([47], NDir 0 0); (bs "/etc", NDir 0 0); (bs "/usr/etc", NDir 0 0);
             (bs "/etc/foo.conf", NFile (bs "g=1" ++ [10] ++ bs "[E]" ++ [10] ++ bs "[A]" ++ [10] ++ bs "x=2" ++ [10] ++ bs " more" ++ [10]) 0 0)] in
